@@ -15,9 +15,12 @@
       session 20 creates a shared (roundrobin) registration with
       [disclose_caller = true]; the anonymous session 21 — whose own REGISTER
       with [disclose_caller = true] is refused option_disallowed.disclose_me —
-      joins that registration without the option and from then on receives
-      the callers' identities: the flag is the creator's
-      ([callee_asked_refuted_proof]). *)
+      joins that registration without the option.  The creator is sent the
+      callers' identities, the joiner is NOT: [reg_disclose] is per callee
+      (this history refuted the property before the repair of
+      router/dealer.go syncRegister, /repo adf4e26).  [ConvEx]: conversely, a
+      joiner that asks (realm allows) is sent identities although the creator
+      did not ask. *)
 From Nexus Require Import Router.Realm Router.RealmProofs Router.RealmWf Router.RealmStep.
 From Nexus Require Import Router.RealmTraceLib Router.RealmTrace Router.RealmTraceC05 Router.RealmTraceEx.
 From Nexus Require Import Router.RealmTraceC12Reg Router.RealmTraceC12.
@@ -108,10 +111,10 @@ Module InvEx12.
       [(14, RInvocation 2 24 [("progress", VBool false); ("procedure", vuri "p")] [] [])].
   Proof. repeat split; vm_compute; reflexivity. Qed.
 
-  (** the flag of registration 25 and its creating step *)
+  (** 15 is in the list of registration 25; its asking step *)
   Lemma flag :
     (exists rg, nget (d_regs (r_dealer (fst (run (init_realm EvEx.cfgd) ops)))) 25 = Some rg /\
-                reg_disclose rg = true /\ In 15 (reg_callees rg) /\ 15 <> meta_id) /\
+                In 15 (reg_disclose rg) /\ In 15 (reg_callees rg) /\ 15 <> meta_id) /\
     In (15, RRegistered 1 25)
        (snd (step (fst (run (init_realm EvEx.cfgd)
                             [OJoin 10 false EvEx.hello_pub; OJoin 14 false hello_callee_id; OJoin 15 false hello_callee;
@@ -119,7 +122,7 @@ Module InvEx12.
                   (OMsg 15 (CRegister 1 [("disclose_caller", VBool true)] "q") 0))).
   Proof.
     split.
-    - eexists. split; [vm_compute; reflexivity|]. split; [reflexivity|]. split; [now left|discriminate].
+    - eexists. split; [vm_compute; reflexivity|]. split; [left; reflexivity|]. split; [left; reflexivity|discriminate].
     - vm_compute. now left.
   Qed.
 End InvEx12.
@@ -133,47 +136,66 @@ Module SharedEx.
   Definition call1 : op := OMsg 22 (CCall 1 [] "s" [] []) 0.
   Definition call2 : op := OMsg 22 (CCall 2 [] "s" [] []) 0.
   (** 21 never asks *)
-  Definition pre : list op := joins ++ [reg20; reg21; call1].
+  Definition ops : list op := joins ++ [reg20; reg21; call1; call2].
   (** 21 asks first and is refused *)
   Definition ask21 : op := OMsg 21 (CRegister 9 [("disclose_caller", VBool true)] "zz") 0.
-  Definition pre' : list op := joins ++ [ask21; reg20; reg21; call1].
+  Definition ops' : list op := joins ++ [ask21; reg20; reg21; call1; call2].
 
   Definition ident : dict :=
     [("caller", vid 22); ("caller_authid", vstr "<gen>"); ("caller_authrole", vstr "anonymous")].
   Definition det : dict := ("progress", VBool false) :: ident ++ [("procedure", vuri "s")].
-  Definition ys21 : session := mkSession 21 false InvEx12.hello_callee (join_details 21 false InvEx12.hello_callee) 0.
+  Definition plain : dict := [("progress", VBool false); ("procedure", vuri "s")].
+
+  Lemma hyps : c_disclose cfgn = false /\ c_authz cfgn = None /\
+               Forall op_ok ops /\ k0 cfgn + N.of_nat (List.length ops) <= max_idN /\
+               Forall op_ok ops' /\ k0 cfgn + N.of_nat (List.length ops') <= max_idN.
+  Proof.
+    split; [reflexivity|]. split; [reflexivity|].
+    split; [unfold ops, joins; cbn [app]; ops_ok|]. split; [apply N.leb_le; reflexivity|].
+    split; [unfold ops', joins; cbn [app]; ops_ok|]. apply N.leb_le; reflexivity.
+  Qed.
+
+  (** the creator 20 is sent the caller's identity, the joiner 21 is not *)
+  Lemma outs :
+    snd (run (init_realm cfgn) ops) =
+    [[]; []; [];
+     [(20, RRegistered 1 24)]; [(21, RRegistered 1 24)];
+     [(20, RInvocation 1 24 det [] [])];
+     [(21, RInvocation 1 24 plain [] [])]].
+  Proof. vm_compute. reflexivity. Qed.
 
   Lemma outs' :
-    snd (run (init_realm cfgn) (pre' ++ [call2])) =
+    snd (run (init_realm cfgn) ops') =
     [[]; []; [];
      [(21, RError c_REGISTER 9 [] e_disclose_me [] [])];
      [(20, RRegistered 1 24)]; [(21, RRegistered 1 24)];
      [(20, RInvocation 1 24 det [] [])];
-     [(21, RInvocation 1 24 det [] [])]].
+     [(21, RInvocation 1 24 plain [] [])]].
   Proof. vm_compute. reflexivity. Qed.
 
-  (** the stronger reading — "in a realm that does not allow disclosure, an
-      INVOCATION with the caller's identity reaches only a callee that is
-      trusted or asked for it (or the caller asked)" — is false of the model *)
-  Theorem callee_asked_refuted_proof :
-    exists cfg pre o post y inv rid det a k ys,
-      let ops := pre ++ o :: post in
-      let r := fst (run (init_realm cfg) pre) in
-      c_authz cfg = None /\ Forall op_ok ops /\ k0 cfg + N.of_nat (List.length ops) <= max_idN /\
-      c_disclose cfg = false /\
-      In (y, RInvocation inv rid det a k) (snd (step r o)) /\ dhas det "caller" = true /\
-      find_session (r_clients r) y = Some ys /\
-      attr_of (s_details ys) "authrole" <> "trusted" /\
-      (forall q opts proc orc, In (OMsg y (CRegister q opts proc) orc) ops -> opt_bool opts "disclose_caller" = false) /\
-      (exists x q opts proc orc, o = OMsg x (CCall q opts proc a k) orc /\ opt_bool opts "disclose_me" = false).
-  Proof.
-    exists cfgn, pre, call2, [], 21, 1, 24, det, [], [], ys21. cbv zeta.
-    split; [reflexivity|]. split; [unfold pre, joins; cbn [app]; ops_ok|].
-    split; [apply N.leb_le; reflexivity|]. split; [reflexivity|].
-    split; [vm_compute; left; reflexivity|]. split; [reflexivity|]. split; [vm_compute; reflexivity|].
-    split; [vm_compute; discriminate|]. split.
-    - intros q opts proc orc Hin. unfold pre, joins in Hin. cbn [app In] in Hin.
-      repeat (destruct Hin as [Hin|Hin]; [try discriminate Hin; inversion Hin; subst; reflexivity|]). destruct Hin.
-    - unfold call2. do 5 eexists. split; reflexivity.
-  Qed.
+  (** the list of registration 24: the creator only; both are callees *)
+  Lemma lists :
+    exists rg, nget (d_regs (r_dealer (fst (run (init_realm cfgn) ops)))) 24 = Some rg /\
+               reg_disclose rg = [20] /\ reg_callees rg = [20; 21].
+  Proof. eexists. split; [vm_compute; reflexivity|]. split; reflexivity. Qed.
 End SharedEx.
+
+Module ConvEx.
+  (** the realm allows disclosure; the creator 20 does not ask, the joiner 21 does *)
+  Definition reg20 : op := OMsg 20 (CRegister 1 [("invoke", vstr "roundrobin")] "s") 0.
+  Definition reg21 : op := OMsg 21 (CRegister 1 [("invoke", vstr "roundrobin"); ("disclose_caller", VBool true)] "s") 0.
+  Definition ops : list op :=
+    [OJoin 20 false InvEx12.hello_callee; OJoin 21 false InvEx12.hello_callee; OJoin 22 false EvEx.hello_pub;
+     reg20; reg21; SharedEx.call1; SharedEx.call2].
+
+  Lemma outs :
+    Forall op_ok ops /\ k0 EvEx.cfgd + N.of_nat (List.length ops) <= max_idN /\
+    snd (run (init_realm EvEx.cfgd) ops) =
+    [[]; []; [];
+     [(20, RRegistered 1 24)]; [(21, RRegistered 1 24)];
+     [(20, RInvocation 1 24 SharedEx.plain [] [])];
+     [(21, RInvocation 1 24 SharedEx.det [] [])]].
+  Proof.
+    split; [unfold ops; ops_ok|]. split; [apply N.leb_le; reflexivity|]. vm_compute. reflexivity.
+  Qed.
+End ConvEx.
